@@ -116,6 +116,9 @@ func StrictIntLogicalLeftBitshift[T StrictInt](left T, right Value, shiftFunc lo
 			return shiftFunc(left, uint64(-r)), Undefined
 		}
 		return left << r, Undefined
+	case UINT_FLAG:
+		r := right.AsUInt()
+		return left << r, Undefined
 	case UINT64_FLAG:
 		r := right.AsInlineUInt64()
 		return left << r, Undefined
